@@ -154,8 +154,14 @@ Definition domain_ok_alloc (aggs : list agg) (R : Z) : bool :=
 Definition c09_check (c : c09_case) : issues :=
   match c with
   | AllocCase aggs R impls =>
-      flat_map (fun impl => if domain_ok_alloc aggs R then alloc_spec aggs R impl else []) impls
-      ++ diff_if (forallb (fun impl => list_eqb pay_eqb (allocate_rewards true aggs R) impl) impls) "AllocateRewards payments"
+      (* entries with id -2 are the coins AllocateRewards moved into the tips escrow pool (bank send):
+         exactly one, of exactly the reward *)
+      let pays := fun impl : list (Z * Z * Z * Z) => filter (fun c => let '(id, _, _, _) := c in negb (id =? -2)) impl in
+      let sends := fun impl : list (Z * Z * Z * Z) => map (fun c => let '(_, a, _, _) := c in a) (filter (fun c => let '(id, _, _, _) := c in id =? -2) impl) in
+      flat_map (fun impl => if domain_ok_alloc aggs R then alloc_spec aggs R (pays impl) else []) impls
+      ++ flat_map (fun impl => spec_if (match impl with [] => true | _ => list_eqb Z.eqb (sends impl) [R] end)
+                                       "the coins moved into the tips escrow pool are not exactly the reward") impls
+      ++ diff_if (forallb (fun impl => list_eqb pay_eqb (allocate_rewards true aggs R) (pays impl)) impls) "AllocateRewards payments"
   | CalcCase p n T R impl => diff_if (calc_reward p n T R =? impl) "CalculateRewardAmount"
   | DivvyCase reporter rate reward origins total credits =>
       (* every rate accepted by CreateReporter (<= 100) is in the property's range *)
